@@ -16,6 +16,7 @@ import (
 	"io"
 	"log/slog"
 	"os"
+	"runtime/pprof"
 	"sort"
 	"strconv"
 	"strings"
@@ -59,14 +60,14 @@ type Fragment struct {
 
 // Ctx is handed to the harness body.
 type Ctx struct {
-	mu        sync.Mutex
-	F         Fragment
-	caseNo    int64
-	vio       map[string]*Violation
-	distinct  map[[16]byte]struct{}
-	startReal int64
-	deadline  int64 // real ns; 0 = none
-	seed      int64
+	mu         sync.Mutex
+	F          Fragment
+	caseNo     int64
+	vio        map[string]*Violation
+	distinct   map[[16]byte]struct{}
+	startReal  int64
+	deadline   int64 // real ns; 0 = none
+	seed       int64
 	MaxSamples int
 }
 
@@ -164,7 +165,7 @@ func (c *Ctx) Cap(what string) {
 	c.F.Caps = append(c.F.Caps, what)
 }
 
-func (c *Ctx) Eval(n int64) { c.mu.Lock(); c.F.Evaluations += n; c.mu.Unlock() }
+func (c *Ctx) Eval(n int64)  { c.mu.Lock(); c.F.Evaluations += n; c.mu.Unlock() }
 func (c *Ctx) State(n int64) { c.mu.Lock(); c.F.States += n; c.mu.Unlock() }
 func (c *Ctx) Trans(n int64) { c.mu.Lock(); c.F.Transitions += n; c.F.Traces += n; c.mu.Unlock() }
 func (c *Ctx) Count(name string, n int64) {
@@ -264,7 +265,23 @@ func (c *Ctx) Finish() {
 // Exit leaves the process immediately (needed inside synctest bubbles that still
 // hold blocked goroutines of the code under test).
 func Exit(code int) {
+	if profFile != nil {
+		pprof.StopCPUProfile()
+		profFile.Close()
+	}
 	syscall.Exit(code)
+}
+
+var profFile *os.File
+
+// StartProfile starts a CPU profile when VERIF_CPUPROF names a file (diagnostics only).
+func StartProfile() {
+	if p := os.Getenv("VERIF_CPUPROF"); p != "" && profFile == nil {
+		if f, err := os.Create(p); err == nil {
+			profFile = f
+			pprof.StartCPUProfile(f)
+		}
+	}
 }
 
 // TmpRoot is where scratch directories are created.
